@@ -195,7 +195,7 @@ fn build(seed: u64, plan_ix: u64, steps_per_thread: usize) -> Vec<FThread> {
     let shape = plan_ix % 4;
     let rough = plan_ix >= 4;
     if shape == 3 {
-        return build_hammer(&mut rng, steps_per_thread * 3, (plan_ix / 4) % 2 == 1);
+        return build_hammer(&mut rng, steps_per_thread * 3, (plan_ix / 4) % 3);
     }
     // cheap, mode-sensitive kinds (Miri is ~10^4 x slower than native)
     let kinds: [usize; 8] = [0, 2, 4, 10, 11, 12, 15, 19];
@@ -283,7 +283,8 @@ fn build(seed: u64, plan_ix: u64, steps_per_thread: usize) -> Vec<FThread> {
 /// none of that may ever be visible to the first thread.  Windows of a few
 /// instructions INSIDE `set_default` are only reachable this way (seeded
 /// change s26: a counter decremented and re-incremented by a redundant reset).
-fn build_hammer(rng: &mut Rng, steps_per_thread: usize, togglers: bool) -> Vec<FThread> {
+fn build_hammer(rng: &mut Rng, steps_per_thread: usize, variant: u64) -> Vec<FThread> {
+    let togglers = variant >= 1;
     let cfg = free_cfg();
     let kinds: [usize; 4] = [0, 2, 11, 19];
     let custom = {
@@ -291,7 +292,14 @@ fn build_hammer(rng: &mut Rng, steps_per_thread: usize, togglers: bool) -> Vec<F
         if m >= HALF_EVEN { m + 1 } else { m }
     };
     let mut l0: Vec<FStep> = vec![FStep::Read, FStep::Set(custom), FStep::Spawn(1), FStep::Spawn(2), FStep::Barrier];
-    for _ in 0..2 * steps_per_thread + 8 {
+    for i in 0..2 * steps_per_thread + 8 {
+        if variant == 2 && i % 2 == 1 {
+            // variant 2: the reader itself keeps switching between two custom
+            // modes, so that ITS set_default calls overlap the others' (state
+            // handed back and forth between threads: seeded change s47)
+            let m = if (i / 2) % 2 == 0 { (custom + 1) % 8 } else { custom };
+            l0.push(FStep::Set(if m == HALF_EVEN { (m + 1) % 8 } else { m }));
+        }
         l0.push(FStep::Read);
         let kind = *rng.pick(&kinds);
         l0.push(FStep::Op(gen_op(rng, &cfg, kind, Class::Witness), Outcome::Unit));
